@@ -194,8 +194,19 @@ def try_to_save_module(hashed_grammar, file_io, module, lines, pickling=True, ca
                 'Tried to save a file to %s, but got permission denied.' % path,
                 Warning
             )
+        except Exception as e:
+            # The same goes for a full disk, a read-only file system, ...
+            warnings.warn(
+                'Tried to save a file to %s, but failed: %r' % (path, e),
+                Warning
+            )
         else:
-            _remove_cache_and_update_lock(cache_path=cache_path)
+            try:
+                _remove_cache_and_update_lock(cache_path=cache_path)
+            except OSError:
+                # Cleaning up the cache directory is not important enough to
+                # make parsing fail.
+                pass
 
 
 def _save_to_file_system(hashed_grammar, path, item, cache_path=None):
